@@ -56,6 +56,7 @@ type racer struct {
 	killed  bool
 	err     error
 	cancel  context.CancelFunc
+	ctx     context.Context
 }
 
 // envFor is the environment of an llgo process for the world's current configuration.
@@ -97,7 +98,7 @@ func (r *racer) start(w *world) error {
 	w.tag, w.abi, w.opt = saveTag, saveAbi, saveOpt
 	os.Remove(r.out)
 	ctx, cancel := context.WithTimeout(context.Background(), 15*time.Minute)
-	r.cancel = cancel
+	r.cancel, r.ctx = cancel, ctx
 	r.cmd = exec.CommandContext(ctx, llgoBin, args...)
 	r.cmd.Dir = w.dir
 	r.cmd.Env = append(w.envFor(w.cache), "VERIF_GATE="+r.dir)
@@ -322,6 +323,10 @@ func (w *world) race(si int, st Step, ch *sim.Choices, res *driver.Result, mix f
 			continue
 		}
 		if r.err != nil {
+			if r.ctx != nil && r.ctx.Err() != nil {
+				// the wall-clock limit of a builder process: trouble of the machine, not a verdict
+				return "infra-build-failed", fmt.Sprintf("step %d: builder %s did not finish within its wall-clock limit", si, r.id), nil
+			}
 			if r.faulted {
 				res.Faults["disk-error-during-build"]++
 				w.logf("step %d:   builder %s failed on its injected fault", si, r.id)
